@@ -128,7 +128,13 @@ def rule_lossy(ctx, rule):
     q = ctx.repo.mod("quote")
     gen = q.func("_generate_unquoted_parts").node
     n = 0
-    for c in walk_no_nested(gen):
+    # the decode step may sit in _generate_unquoted_parts or in a helper it calls
+    sites = []
+    for fnode in F.reachable_in_module(q, "unquote"):
+        if fnode.name == "_unquote_impl":
+            continue
+        sites.extend(x for x in walk_no_nested(fnode))
+    for c in sites:
         if isinstance(c, ast.Call) and isinstance(c.func, ast.Attribute) and c.func.attr == "decode":
             inner = c.func.value
             has_impl = any(
@@ -157,7 +163,7 @@ def rule_lossy(ctx, rule):
                    q.site(c), witness="/caf%E9")
             if ev not in ("replace", "ignore", "strict"):
                 _check_error_handler(ctx, rule, q, ev, c)
-    ctx.require_instances(rule, n, 1, ".decode() sites in _generate_unquoted_parts")
+    ctx.require_instances(rule, n, 1, ".decode() sites between unquote and _unquote_impl")
 
 
 def rule_space(ctx, rule):
@@ -525,7 +531,7 @@ def rule_qsl_mappers(ctx, rule):
         ref = q.func(fn)
         ctx.fn(ref.qualname)
         site = q.site(ref.node)
-        t = ex.result_term(ex.function(ref))
+        t = P.strip_inl(ex.result_term(ex.function(ref)))
         if not (t[0] == "comp" and len(t[3]) == 1 and t[2][0] == "tuple" and len(t[2][1]) == 2):
             ctx.undecided(rule, "%s is not a comprehension of (key, value) pairs: %s" % (fn, P.show(t, maxdepth=4)))
             continue
